@@ -11,7 +11,7 @@ from extract import ExtractionError
 
 LEXER = "prqlc/prqlc-parser/src/lexer/mod.rs"
 
-LABELS = ["ES1", "ES2a", "ES2b", "ES2c", "ES3", "ES4", "ESL", "ESH", "ESX", "MQ1", "MQ2", "MQ3", "MQ4", "MQL", "MQI", "MQV"]
+LABELS = ["ES1", "ES2a", "ES2b", "ES2c", "ES2x", "ES2u", "ES3", "ES4", "ESL", "ESH", "ESX", "MQ1", "MQ2", "MQ3", "MQ4", "MQL", "MQI", "MQV"]
 FUNCTIONS = ["parse_escape_sequence", "multi_quoted_body"]
 RLIMIT = 120
 
@@ -80,6 +80,7 @@ impl HexBuf {
     #[verifier::external_body] pub fn new() -> (r: HexBuf) ensures r@ == Seq::<char>::empty(), { unimplemented!() }
     #[verifier::external_body] pub fn push(&mut self, c: char) ensures final(self)@ == old(self)@.push(c), { unimplemented!() }
     #[verifier::external_body] pub fn len(&self) -> (r: usize) ensures r == self@.len(), { unimplemented!() }
+    #[verifier::external_body] pub fn is_empty(&self) -> (r: bool) ensures r == (self@.len() == 0), { unimplemented!() }
 }
 pub open spec fn is_hex(c: char) -> bool { ('0' <= c && c <= '9') || ('a' <= c && c <= 'f') || ('A' <= c && c <= 'F') }
 #[verifier::external_body] pub fn char_is_hex(c: char) -> (r: bool) ensures r == is_hex(c), { unimplemented!() }
@@ -118,7 +119,6 @@ def build(X):
     pe.rewrite_re("R5", r"\b(\w+)\.is_ascii_hexdigit\(\)", r"char_is_hex(\1)", count=None, why="char::is_ascii_hexdigit")
     pe.rewrite_re("R5", r"u32::from_str_radix\(&(\w+), 16\)\.unwrap_or\((\w+)\)", r"result_unwrap_or(from_str_radix16(&\1), \2)", count=None, why="u32::from_str_radix(.., 16)")
     pe.rewrite_re("R5", r"\bchar::from_u32\(", "char_from_u32(", count=None, why="char::from_u32")
-    pe.rewrite_re("R3", r"for _ in 0\.\.2\b", "for _i in 0..2", count=None, why="Verus wants a named loop variable")
     pe.ret_name("r")
     pe.contract("""
         requires old(input).wf(),
@@ -138,13 +138,19 @@ def build(X):
                forall|n: int| (1 <= n <= 6 && p + n + 3 <= s.len() && s[p] == 'u' && s[p + 1] == '{'
                 && (forall|i: int| 0 <= i < n ==> is_hex(#[trigger] s[p + 2 + i])) && #[trigger] s[p + 2 + n] == '}') ==> (
                 final(input).pos() == p + n + 3 && code_char(hex_value(s.subrange(p + 2, p + 2 + n)), r)) }), // @ES2c
+            // anything else that starts with \\x or \\u is not an escape: it denotes the `x` / `u` and NOTHING after it is consumed (no character of the source disappears)
+            ({ let s = old(input).src(); let p = old(input).pos();
+               (p < s.len() && s[p] == 'x' && !(p + 3 <= s.len() && is_hex(s[p + 1]) && is_hex(s[p + 2]))) ==> (final(input).pos() == p + 1 && r == 'x') }), // @ES2x
+            ({ let s = old(input).src(); let p = old(input).pos();
+               (p < s.len() && s[p] == 'u' && !(exists|n: int| 1 <= n <= 6 && p + n + 3 <= s.len() && s[p + 1] == '{'
+                && (forall|i: int| 0 <= i < n ==> is_hex(#[trigger] s[p + 2 + i])) && #[trigger] s[p + 2 + n] == '}')) ==> (final(input).pos() == p + 1 && r == 'u') }), // @ES2u
             // a backslash at the end of the input stays a backslash
             old(input).pos() == old(input).src().len() ==> (r == '\\\\' && final(input).pos() == old(input).pos()), // @ES3
     """)
     # loop #1: while let Some(ch) = input.peek()   (the \u{..} digits)
     pe.loop_contract(1, """
         invariant_except_break
-            input.pos() == p0 + 2 + hex@.len(), // @ESL
+            input.pos() == p0 + 2 + hex@.len(), !closed, // @ESL
         invariant
             input.src() == s0, 0 <= p0, p0 + 2 <= s0.len(), s0[p0] == 'u', s0[p0 + 1] == '{',
             hex@.len() <= 6, all_hex(hex@),
@@ -152,25 +158,28 @@ def build(X):
             hex@ =~= s0.subrange(p0 + 2, p0 + 2 + hex@.len()),
             forall|i: int| 0 <= i < hex@.len() ==> is_hex(#[trigger] s0[p0 + 2 + i]), // @ESH
         ensures
-            input.pos() == p0 + 2 + hex@.len()
-                || (p0 + 2 + hex@.len() < s0.len() && s0[p0 + 2 + hex@.len()] == '}' && input.pos() == p0 + 3 + hex@.len()),
-            // the loop stops at the first character that is not one of (at most six) hex digits
-            input.pos() == p0 + 2 + hex@.len() ==> (p0 + 2 + hex@.len() == s0.len()
-                || (s0[p0 + 2 + hex@.len()] != '}' && (hex@.len() == 6 || !is_hex(s0[p0 + 2 + hex@.len()])))), // @ESX
+            // `closed`: the brace that follows the digits was consumed
+            closed ==> (p0 + 2 + hex@.len() < s0.len() && s0[p0 + 2 + hex@.len()] == '}' && input.pos() == p0 + 3 + hex@.len()),
+            // otherwise the loop stopped at the first character that is not one of (at most six) hex digits
+            !closed ==> (input.pos() == p0 + 2 + hex@.len() && (p0 + 2 + hex@.len() == s0.len()
+                || (s0[p0 + 2 + hex@.len()] != '}' && (hex@.len() == 6 || !is_hex(s0[p0 + 2 + hex@.len()]))))), // @ESX
         decreases input.src().len() - input.pos(), // @ES4
     """)
     pe.insert_at_body_start("let ghost s0 = input.src(); let ghost p0 = input.pos();", "ghost snapshot of the input position")
     # loop #2: for _ in 0..2   (the \xHH digits)
+    xi = pe.desugar_range_for(2)
     pe.loop_contract(2, """
         invariant
-            input.src() == s0, 0 <= p0, p0 + 1 <= s0.len(), s0[p0] == 'x',
+            input.src() == s0, 0 <= p0, p0 + 1 <= s0.len(), s0[p0] == 'x', verif_end2 == 2, _i <= 2,
             hex@.len() <= _i, all_hex(hex@),
             p0 + 1 + hex@.len() <= s0.len(),
             hex@ =~= s0.subrange(p0 + 1, p0 + 1 + hex@.len()),
             input.pos() == p0 + 1 + hex@.len(),
             // a digit was skipped only because it was not a hex digit (or the input ended)
             (hex@.len() < _i) ==> (s0.len() < p0 + 3 || !is_hex(s0[p0 + 1]) || !is_hex(s0[p0 + 2])),
-    """)
+            hex@.len() >= 1 ==> is_hex(s0[p0 + 1]), hex@.len() >= 2 ==> is_hex(s0[p0 + 2]),
+        decreases 2 - _i,
+    """.replace("_i", xi))
 
     # ---------------------------------------------------------------- multi_quoted_string closure body
     mq = X.fn(LEXER, "multi_quoted_string")
@@ -268,14 +277,14 @@ def _expected(lit):
             v = int(m.group(1), 16)
             out.append(chr(v) if v < 0xD800 or 0xE000 <= v <= 0x10FFFF else "�"); i += 1 + m.end()
         elif e in ("x", "u"):
-            return None          # not specified by the contract
+            out.append(e); i += 1      # ES2x / ES2u: not an escape - the letter itself, and nothing after it is consumed
         else:
             out.append(simple.get(e, e)); i += 1
     return "".join(out)
 
 
 CANDIDATES = [r"a\nb", r"\t\b\f\\\/", r"it\'s", r"\x41\x7a", r"\u{41}", r"\u{1F600}x", r"\u{10FFFF}", r"\u{D800}", r"\u{0041}}", r"\u{0000041}", r"\u{1234567}",
-              r"\u{12345678}", r"\u{41", r"\u{zz}", r"q\u{00e9}"]
+              r"\u{12345678}", r"\u{41", r"\u{zz}", r"q\u{00e9}", r"\x4g", r"\xg4", r"\x4", r"\u{}", r"\u{4g}", r"\u41", r"a\x4\x41\u{41\u{41}"]
 
 
 def _try(lit):
@@ -343,7 +352,8 @@ def sweep():
     out = []
     for lit in CANDIDATES:
         r = _try(lit)
-        r["obligation"] = "lex_strings.parse_escape_sequence.decreases" if "terminates" in str(r.get("expected")) else "lex_strings.ES2a"
+        r["obligation"] = ("lex_strings.parse_escape_sequence.decreases" if "terminates" in str(r.get("expected")) else
+                           "lex_strings.ES2x" if re.search(r"\\x(?![0-9a-fA-F]{2})", lit) else "lex_strings.ES2u" if re.search(r"\\u(?!\{[0-9a-fA-F]{1,6}\})", lit) else "lex_strings.ES2a")
         out.append(r)
     for w, d in MULTI:
         r = _try_multi(w, d)
